@@ -15,11 +15,13 @@ from scipy.integrate import solve_ivp
 
 from vlib import gridutil as gu
 
-VERSION = "2"
+VERSION = "4"
 
 
-def contour_points(reg, k):
-    """(2ny+1, 2) points of radial contour k of a region, from the side-car arrays"""
+def contour_points(reg, k, own_end=False):
+    """(2ny+1, 2) points of radial contour k of a region, from the side-car arrays.
+    own_end: use the region's own last point instead of the one copied from the upper
+    neighbour (distances inside hypnotoad are measured to the region's own end point)"""
     R, Z = reg["arrays"]["Rxy"], reg["arrays"]["Zxy"]
     ny = reg["ny"]
     P = np.empty((2 * ny + 1, 2))
@@ -31,6 +33,13 @@ def contour_points(reg, k):
         i = (k - 1) // 2
         P[0::2, 0], P[0::2, 1] = R["ylow"][i, :], Z["ylow"][i, :]
         P[1::2, 0], P[1::2, 1] = R["centre"][i, :], Z["centre"][i, :]
+    if own_end and "own_last" in reg and reg["connections"]["upper"] is not None:
+        pin = False
+        if k % 2 == 0:
+            pm, _ = gu.pinned_corner_mask(reg)
+            pin = pm[k // 2, -1]
+        if not pin:
+            P[-1, :] = reg["own_last"][k]
     return P
 
 
@@ -56,7 +65,7 @@ class Tracer:
         d = Q - P
         L = float(np.hypot(*d))
         if L == 0.0:
-            return 0.0, 0.0, 0.0
+            return 0.0, 0.0, 0.0, 0.0
         gR, gZ = ref.grad(P[0], P[1])
         sgn = 1.0 if (-gZ * d[0] + gR * d[1]) > 0 else -1.0
 
@@ -77,12 +86,20 @@ class Tracer:
         ev.terminal = True
         ev.direction = 1.0
         sol = solve_ivp(rhs, (0.0, 4.0 * L + 1e-6), [P[0], P[1], 0.0], method="DOP853",
-                        rtol=self.rtol, atol=self.atol, events=ev, max_step=max(L / 4.0, 1e-4))
+                        rtol=self.rtol, atol=self.atol, events=ev, max_step=max(L / 8.0, 1e-4))
         if sol.status != 1 or len(sol.t_events[0]) == 0:
-            return np.nan, np.nan, np.nan
+            return np.nan, np.nan, np.nan, np.nan
         s = float(sol.t_events[0][0])
         y = sol.y_events[0][0]
-        return s, float(y[2]), float(np.hypot(y[0] - Q[0], y[1] - Q[1]))
+        # largest curvature of the flux surface along the traced path (accepted steps)
+        pr = np.append(sol.y[0], y[0])
+        pz = np.append(sol.y[1], y[1])
+        gR, gZ = ref.grad(pr, pz)
+        hRR, hZZ, hRZ = ref.hess(pr, pz)
+        gm = np.hypot(gR, gZ)
+        tR, tZ = -gZ / gm, gR / gm
+        kap = float(np.max(np.abs(hRR * tR * tR + 2 * hRZ * tR * tZ + hZZ * tZ * tZ) / gm))
+        return s, float(y[2]), float(np.hypot(y[0] - Q[0], y[1] - Q[1])), kap
 
 
 def trace_artefact(a):
@@ -98,15 +115,16 @@ def trace_artefact(a):
         arc = np.full((2 * nx + 1, 2 * ny), np.nan)
         dphi = np.full((2 * nx + 1, 2 * ny), np.nan)
         miss = np.full((2 * nx + 1, 2 * ny), np.nan)
+        kap = np.full((2 * nx + 1, 2 * ny), np.nan)
         for k in range(2 * nx + 1):
-            P = contour_points(reg, k)
+            P = contour_points(reg, k, own_end=True)
             pin = pinned_points(reg, k)
             dom = gu.in_domain(a, P[:, 0], P[:, 1])
             for m in range(2 * ny):
                 if pin[m] or pin[m + 1] or not (dom[m] and dom[m + 1]):
                     continue
-                arc[k, m], dphi[k, m], miss[k, m] = tr.segment(P[m], P[m + 1])
-        out[reg["myID"]] = dict(arc=arc, dphi=dphi, miss=miss)
+                arc[k, m], dphi[k, m], miss[k, m], kap[k, m] = tr.segment(P[m], P[m + 1])
+        out[reg["myID"]] = dict(arc=arc, dphi=dphi, miss=miss, kappa=kap)
     return out
 
 
@@ -137,3 +155,12 @@ def ensure_traces(arts, log=None):
         if a.ok:
             with open(os.path.join(a.path, "trace%s.pkl" % VERSION), "rb") as f:
                 a.trace = pickle.load(f)
+
+
+def curvature_allowance(kappa, nfine, region_len):
+    """per-segment relative allowance for the chord error of hypnotoad's Nfine-point fine
+    contour: (kappa*h)^2/8 with kappa the largest flux-surface curvature met along the traced
+    segment (checker's interpolant) and h the fine-contour spacing (region contour length /
+    Nfine).  The theoretical chord error of a polygon is (kappa h)^2/24."""
+    h = region_len / nfine
+    return np.nan_to_num((kappa * h) ** 2 / 8.0, nan=0.0)
